@@ -857,6 +857,23 @@ func (e *Env) evalCall(n *ast.CallExpr) (SVal, error) {
 			}
 			vc.tc.Declare("err_is", "(declare-fun err_is (Iface Iface) Bool)")
 			return SVal{App(SBool, "err_is", a.T, b.T), boolT}, nil
+		case "bitand", "bitor":
+			if err := need(2); err != nil {
+				return SVal{}, err
+			}
+			a, err := e.Eval(n.Args[0])
+			if err != nil {
+				return SVal{}, err
+			}
+			b, err := e.Eval(n.Args[1])
+			if err != nil {
+				return SVal{}, err
+			}
+			op := "bv_and"
+			if fname == "bitor" {
+				op = "bv_or"
+			}
+			return SVal{App(SInt, op, a.T, b.T), pickType(a, b)}, nil
 		case "zero":
 			if err := need(1); err != nil {
 				return SVal{}, err
